@@ -1,0 +1,121 @@
+//go:build verif
+// +build verif
+
+package moss
+
+// Verification hooks, compiled only with -tags verif.  They observe
+// (never change) the state of a collection or store at linearization
+// points, and let a test harness park background goroutines between
+// critical sections.  Nothing here is installed by default.
+
+// VerifInfo is the cheap scalar projection of a collection or store
+// that is handed to the tracer.  Heights are -1 for a nil stack.
+type VerifInfo struct {
+	Point string
+
+	Coll  Collection // Non-nil for collection events.
+	Store *Store     // Non-nil for store events.
+
+	Top, Mid, Base, Clean             int // Heights (own segments).
+	TopOps, MidOps, BaseOps, CleanOps int // Ops in own segments.
+	TopKids, MidKids, BaseKids        int // Number of child stacks.
+	HasLL                             bool
+	Closed                            bool
+	Cached                            bool // latestSnapshot is set.
+	WaitIncoming                      bool // waitDirtyIncomingCh != nil.
+	Pings                             int  // len(pingMergerCh).
+	Children                          map[string]uint64
+
+	// Store events.
+	FileName   string
+	FooterPos  int64
+	PrevPos    int64
+	NumSlocs   int
+	NumKids    int
+	Persists   uint64
+	Compacts   uint64
+	CompactsPt uint64
+
+	Extra []interface{} // Call-site specific (mergeAll, splice point, snapshot).
+}
+
+// VerifTracer, when non-nil, is called at linearization points while
+// the lock protecting the change is still held.
+var VerifTracer func(info VerifInfo)
+
+// VerifGater, when non-nil, is called outside of any lock between
+// critical sections and may block.
+var VerifGater func(point string, coll Collection)
+
+// VerifRemoveObserver, when non-nil, is called before each os.Remove.
+var VerifRemoveObserver func(path string)
+
+func verifStackInfo(ss *segmentStack) (height, ops, kids int) {
+	if ss == nil {
+		return -1, 0, 0
+	}
+	for _, seg := range ss.a {
+		ops += seg.Len()
+	}
+	return len(ss.a), ops, len(ss.childSegStacks)
+}
+
+// verifTrace must be called with the collection (or store) lock held.
+func verifTrace(point string, obj interface{}, extra ...interface{}) {
+	tracer := VerifTracer
+	if tracer == nil {
+		return
+	}
+	info := VerifInfo{Point: point, Extra: extra}
+	switch o := obj.(type) {
+	case *collection:
+		info.Coll = o
+		info.Top, info.TopOps, info.TopKids = verifStackInfo(o.stackDirtyTop)
+		info.Mid, info.MidOps, info.MidKids = verifStackInfo(o.stackDirtyMid)
+		info.Base, info.BaseOps, info.BaseKids = verifStackInfo(o.stackDirtyBase)
+		info.Clean, info.CleanOps, _ = verifStackInfo(o.stackClean)
+		info.HasLL = o.lowerLevelSnapshot != nil
+		info.Closed = o.isClosed()
+		info.Cached = o.latestSnapshot != nil
+		info.WaitIncoming = o.waitDirtyIncomingCh != nil
+		info.Pings = len(o.pingMergerCh)
+		if len(o.childCollections) > 0 {
+			info.Children = make(map[string]uint64, len(o.childCollections))
+			for name, c := range o.childCollections {
+				info.Children[name] = c.incarNum
+			}
+		}
+	case *Store:
+		info.Store = o
+		info.Persists = o.totPersists
+		info.Compacts = o.totCompactions
+		info.CompactsPt = o.totCompactionsPartial
+		if f := o.footer; f != nil {
+			info.FileName = f.fileName
+			info.FooterPos = f.filePos
+			info.PrevPos = f.PrevFooterOffset
+			info.NumSlocs = len(f.SegmentLocs)
+			info.NumKids = len(f.ChildFooters)
+		}
+	}
+	tracer(info)
+}
+
+func verifGate(point string, obj interface{}) {
+	gater := VerifGater
+	if gater == nil {
+		return
+	}
+	c, _ := obj.(*collection)
+	if c == nil {
+		gater(point, nil)
+		return
+	}
+	gater(point, c)
+}
+
+func verifOnRemove(path string) {
+	if f := VerifRemoveObserver; f != nil {
+		f(path)
+	}
+}
